@@ -14,18 +14,18 @@ Definition cdec (tag : nat) (t : str) : option cust :=
   match tag with
   | 0 => option_map CV (V11.parse_u t)
   | 1 => match D3.parse t with D3.Ok d => Some (CD d) | _ => None end
-  | 2 => Some (CA (A1.parse_arch t))
+  | 2 => option_map CA (A1.parse_arch_opt t)
   | _ => None
   end.
 Definition czero (tag : nat) : cust :=
   match tag with 0 => CV {| V3.epoch := 0; V3.upstream := []; V3.revision := [] |} | 1 => CD [] | _ => CA (A1.mk [] [] []) end.
-(* the well-formed values: a Policy version; a dependency as the parser produces it (without the architecture
-   spelled "--"); an architecture that is the parse of some name and not the triple of empty strings *)
+(* the well-formed values: a Policy version; a dependency as the parser produces it; an architecture that ParseArch returns for some
+   name (names with an empty component are refused) *)
 Definition cwf (tag : nat) (x : cust) : Prop :=
   match tag, x with
   | 0, CV v => V3.wf_v v
   | 1, CD d => D4.wf_dep d
-  | 2, CA a => (exists n, a = A1.parse_arch n) /\ ~ A1.zero_arch a
+  | 2, CA a => exists n, A1.parse_arch_opt n = Some a
   | _, _ => False
   end.
 
@@ -34,7 +34,7 @@ Proof.
   destruct tag as [|[|[|tag]]]; destruct x as [v|d|a]; cbn [cwf cenc cdec]; try contradiction.
   - intros W _. now rewrite (V11.roundtrip_wf_u v W).
   - intros W _. now rewrite (D6.C05_partB d W).
-  - intros [(n&->) NZ] _. now rewrite (A1.arch_roundtrip n NZ).
+  - intros (n&E) _. now rewrite (A1.arch_opt_roundtrip n a E).
 Qed.
 
 Lemma joinw_head_nonempty d x r : x <> [] -> D3.joinw d (x :: r) <> [].
@@ -55,7 +55,8 @@ Proof.
     destruct r as [|p r']; [congruence|]. inversion Fr as [|? ? Hp _]; subst.
     unfold D3.dep_string in E. cbn [map] in E. revert E. apply joinw_head_nonempty.
     unfold D3.relation_string. cbn [map]. apply joinw_head_nonempty. now apply possi_string_nonempty.
-  - intros [_ NZ] E. exfalso. apply NZ. now apply D7.arch_string_nonempty.
+  - intros (n&En) E. exfalso. unfold A1.parse_arch_opt in En. destruct (A1.arch_ok n) eqn:O; [|discriminate]. inversion En; subst.
+    apply (A1.arch_ok_not_zero n O). now apply D7.arch_string_nonempty.
 Qed.
 
 (* C09 for the library's custom types: scalars, string lists and version / dependency / architecture fields *)
